@@ -295,6 +295,7 @@ class Counter(MetricWrapperBase):
 
     def reset(self) -> None:
         """Reset the counter to zero. Use this when a logical process restarts without restarting the actual python process."""
+        self._raise_if_not_observable()
         self._value.set(0)
         self._created = time.time()
 
@@ -679,6 +680,7 @@ class Info(MetricWrapperBase):
 
     def info(self, val: Dict[str, str]) -> None:
         """Set info metric."""
+        self._raise_if_not_observable()
         if self._labelname_set.intersection(val.keys()):
             raise ValueError('Overlapping labels for Info metric, metric: {} child: {}'.format(
                 self._labelnames, val))
